@@ -205,3 +205,35 @@ Definition view_t_fetch (r : t_fetch) : list fetch_item :=
   flat_map (fun t => map (fun p => mk_fetch_item (tft_name t) (tfp_index p) (tfp_error p) (tfp_hwm p)
                                                  (view_log (log_of_forest (trees_of p)), None))
                          (tft_parts t)) (tf_topics r).
+
+(* ------------------------------------------------------------------ dictionaries spelled out (no [dict_of]): what the
+   decoders return when the keys of the response are distinct *)
+Definition plain_meta_topic (t : s_meta_topic) : topic_metadata :=
+  mk_topic_metadata (smt_name t) (smt_error t) (map (fun p => (smp_index p, view_meta_part (smt_name t) p)) (smt_parts t)).
+Definition plain_metadata (r : s_metadata) : list (Z * broker_metadata) * list (list Z * topic_metadata) :=
+  (map (fun b => (sb_node b, view_broker b)) (sm_brokers r), map (fun t => (smt_name t, plain_meta_topic t)) (sm_topics r)).
+Definition plain_assignment (r : s_assignment) : member_assignment :=
+  mk_member_assignment (asg_version r) (map (fun a => (sas_topic a, sas_partitions a)) (asg_topics r)) (asg_user_data r).
+
+(* ------------------------------------------------------------------ vocabulary of the producer-path theorems *)
+(* (key, value) of a message; a pair of byte strings or nulls *)
+Definition bytes_or_null (o : option (list Z)) : bool := match o with None => true | Some b => bytes_ok b end.
+Definition kv (m : message) : option (list Z) * option (list Z) := (m_key m, m_value m).
+Definition kv_ok (p : option (list Z) * option (list Z)) : bool := bytes_or_null (fst p) && bytes_or_null (snd p).
+(* messages numbered off, off+incr, off+2*incr, ... as _encode_message_set writes them *)
+Definition numbered (off incr : Z) (msgs : list message) : list omsg :=
+  map (fun im => (off + Z.of_nat (fst im) * incr, snd im)) (combine (seq 0 (length msgs)) msgs).
+(* all at one offset *)
+Definition all_at (off : Z) (msgs : list message) : list omsg := map (fun m => (off, m)) msgs.
+
+(* ------------------------------------------------------------------ Message.timestamp_type (common.py:660)
+   afkak.common.Message has a sixth field, timestamp_type (default 0), that Model.MsgSet.message does not carry
+   because the codec neither reads nor writes it:
+     _encode_message (kafkacodec.py:339-361) packs magic, attributes, [timestamp,] key, value - never timestamp_type;
+     _decode_message (kafkacodec.py:416, 449) builds Message(magic, att, key, value[, timestamp]) - the field keeps
+     its default 0 whatever attributes bit 3 says.
+   [pymessage] is the Python object, [py_encode_message] / [py_decoded] the two code paths as they are NOW. *)
+Record pymessage := mk_pymessage { pm_msg : message; pm_tstype : Z }.
+Definition py_encode_message (now : Z) (pm : pymessage) : res (list Z) := encode_message now (pm_msg pm).
+Definition py_decoded (m : message) : pymessage := mk_pymessage m 0.
+Definition py_decoded_set (r : dres) : list (Z * pymessage) := map (fun om => (fst om, py_decoded (snd om))) (fst r).
